@@ -150,7 +150,22 @@ func c01Scenarios(thorough bool) []*e1Scenario {
 	}
 	tags := &e1Scenario{Name: "C01/tags", World: c01TagWorld, Policies: c01TagPolicies(),
 		Prefix: []hist.Event{{Kind: "policy", Policy: 0}}, Menu: c01TagMenu, Depth: tagDepth, Refs: []string{refTag}}
-	return []*e1Scenario{base, noPolicy, tags}
+	// a revoked violation is open when exploration starts: policy changes,
+	// the repair and later pushes interleave inside and after the recovery
+	// window (entries set aside during the fix search must be judged, and
+	// must take effect, in log order)
+	incidentMenu := func(h *hist.Hist, d int) []hist.Event {
+		evs := c01Menu(thorough)(h, d)
+		for _, s := range []string{"P0", "U"} {
+			evs = append(evs, hist.Event{Kind: "push", Ref: refMain, Commit: "r", Signer: s})
+		}
+		return evs
+	}
+	incident := &e1Scenario{Name: "C01/open-incident", World: c01World, Policies: c01Policies(),
+		Prefix: []hist.Event{{Kind: "policy", Policy: 0}, {Kind: "push", Ref: refMain, Commit: "c0", Signer: "P0"},
+			{Kind: "push", Ref: refMain, Commit: "c1", Signer: "U"}, {Kind: "annotate", Names: []int{2}, Skip: true}},
+		Menu: incidentMenu, Depth: depth, Refs: []string{refMain, refFeat}}
+	return []*e1Scenario{base, noPolicy, tags, incident}
 }
 
 func TestC01(t *testing.T) {
